@@ -11,6 +11,8 @@ import (
 	"strings"
 	"time"
 
+	"go/types"
+
 	"golang.org/x/tools/go/ssa"
 	"golang.org/x/tools/go/ssa/ssautil"
 )
@@ -67,7 +69,7 @@ type evidence struct {
 func (e *Engine) instancesOf(gen *ssa.Function) []*ssa.Function {
 	var out []*ssa.Function
 	for fn := range ssautil.AllFunctions(e.prog) {
-		if fn.Origin() == gen && fn != gen && len(fn.Blocks) > 0 {
+		if fn.Origin() == gen && fn != gen && len(fn.Blocks) > 0 && !hasTypeParamArgs(fn) {
 			out = append(out, fn)
 		}
 	}
@@ -449,4 +451,13 @@ func (e *Engine) verifyInstance(c *Contract, inst *ssa.Function) *FuncResult {
 	}
 	res.Err = "heap map discovery did not reach a fixed point"
 	return res
+}
+
+func hasTypeParamArgs(fn *ssa.Function) bool {
+	for _, t := range fn.TypeArgs() {
+		if _, ok := t.(*types.TypeParam); ok {
+			return true
+		}
+	}
+	return false
 }
